@@ -350,6 +350,7 @@ func runOrders(o *Opts) *Summary {
 	var w *World
 	instances, unsupported := 0, 0
 	oooTotal := 0
+	screened, screenHits := 0, 0
 	for t := 0; t < o.Traces; t++ {
 		n := o.N
 		if n == 0 {
@@ -368,6 +369,26 @@ func runOrders(o *Opts) *Summary {
 			w2.OpenTrace(os.DevNull)
 			w2.tsBase = time.Now().Unix()
 			funkyDAG(w2, (t%3)*3, 20+w2.rng.Intn(30))
+		} else if o.Sched == "randdag" {
+			// synthetic pairwise gossip (one event per exchange, on top of the other
+			// side's head).  Candidates are screened - per-event against once-at-the-end
+			// insertion - and the first one on which the two disagree is kept (the last
+			// candidate otherwise); the verdict is TLC's, on the recorded instances.
+			n = 4 + t%2
+			for cand := 0; ; cand++ {
+				w2 = NewWorld(o.Seed*100000+int64(t)*1000+int64(cand), n)
+				w2.OpenTrace(os.DevNull)
+				w2.tsBase = time.Now().Unix()
+				randGossipDAG(w2, n, o.Steps+w2.rng.Intn(o.Steps/3+1))
+				screened++
+				if cand+1 >= o.Cache || batchingMatters(w2, n) {
+					if cand+1 < o.Cache {
+						screenHits++
+					}
+					break
+				}
+				w2.CloseTrace()
+			}
 		} else {
 			cn := NewCoreNet(w2, CoreOpts{N: n, Store: "inmem", Cache: 100000})
 			sc := makeSched(w2, schedNames[t%len(schedNames)], n, o.Steps)
@@ -610,6 +631,9 @@ func runOrders(o *Opts) *Summary {
 			}
 			x := map[string]interface{}{"kind": v.kind, "store": v.store, "cache": v.cache, "batch": v.batch,
 				"subset": v.subset, "nins": len(v.order), "order": digest([]byte(fmt.Sprint(idsOf(v.order))))}
+			if v.batch != 1 {
+				x["ids"] = idsOf(v.order) // (the specification re-executes the same batching when the output differs)
+			}
 			w.Emit(1, "Instance", x, out)
 			if len(s.Samples) < 4 && (vi == 0 || v.kind == "batch" || v.kind == "subset") {
 				s.Samples = append(s.Samples, map[string]interface{}{"trace": t + 1, "n": n, "events": len(all), "variant": x,
@@ -627,6 +651,8 @@ func runOrders(o *Opts) *Summary {
 	s.Extra["instances"] = instances
 	s.Extra["passes_with_rounds_decided_out_of_order"] = oooTotal
 	s.Extra["unsupported_configurations"] = unsupported
+	s.Extra["random_dags_screened"] = screened
+	s.Extra["random_dags_where_batching_matters"] = screenHits
 	w.CloseTrace()
 	return s
 }
@@ -643,4 +669,65 @@ func maxInt(a, b int) int {
 		return a
 	}
 	return b
+}
+
+// randGossipDAG: n creators; after the n parentless first events, each step one
+// creator puts an event on top of its own head and another creator's head.
+func randGossipDAG(w *World, n, steps int) {
+	heads := make([]string, n)
+	seq := make([]int, n)
+	mk := func(c int, sp, op string) {
+		p := w.parts[c]
+		idx := 0
+		if sp != "" {
+			idx = seq[c] + 1
+		}
+		name := fmt.Sprintf("r%d_%d", c, idx)
+		ev := hg.NewEvent([][]byte{[]byte(name)}, nil, nil, []string{sp, op}, p.Pub, idx)
+		ev.Body.Timestamp = w.tsBase + int64(len(w.events))*3 + int64(w.rng.Intn(7))
+		if err := ev.Sign(p.Key); err != nil {
+			panic(err)
+		}
+		w.NewTx([]byte(name))
+		w.Register(ev)
+		heads[c], seq[c] = ev.Hex(), idx
+	}
+	for c := 0; c < n; c++ {
+		mk(c, "", "")
+	}
+	for k := 0; k < steps; k++ {
+		c := w.rng.Intn(n)
+		o := w.rng.Intn(n)
+		for o == c {
+			o = w.rng.Intn(n)
+		}
+		mk(c, heads[c], heads[o])
+	}
+}
+
+// batchingMatters: a cheap screen (not an oracle): do a per-event and an
+// at-the-end instance of this DAG report different fame or blocks?
+func batchingMatters(w *World, n int) bool {
+	gen := []int{}
+	for i := 1; i <= n; i++ {
+		gen = append(gen, i)
+	}
+	all := []*EvInfo{}
+	for _, inf := range w.events {
+		all = append(all, inf)
+	}
+	sort.Slice(all, func(i, j int) bool { return all[i].Seq < all[j].Seq })
+	key := func(batch int) string {
+		in, err := w.newInst(gen, "inmem", 100000, "")
+		if err != nil {
+			return "err"
+		}
+		defer in.close()
+		if err := in.feed(all, batch); err != nil {
+			return "err:" + err.Error()
+		}
+		out := in.output(all)
+		return fmt.Sprint(out["fame"], out["blocks"], out["rr"])
+	}
+	return key(1) != key(0)
 }
